@@ -1865,7 +1865,11 @@ public:
 				   meet_g.edge_val(e.first.second, 0) + e.second,
 				   0, min_op);
 	    }
-	  } else {
+	  }
+	  // The loop above only looks at the NEW relational edges: a bound of one
+	  // operand combined with a relational edge of the other operand is
+	  // missed (x=1 meet y-x<=1 must give y<=2). Always re-close from/to v0.
+	  {
 	    delta.clear();
 	    GrOps::close_after_assign(meet_g, meet_pi, 0, delta);
 	    GrOps::apply_delta(meet_g, delta);
@@ -2002,7 +2006,11 @@ public:
 				   meet_g.edge_val(e.first.second, 0) + e.second,
 				   0, min_op);
 	    }
-	  } else {
+	  }
+	  // The loop above only looks at the NEW relational edges: a bound of one
+	  // operand combined with a relational edge of the other operand is
+	  // missed (x=1 meet y-x<=1 must give y<=2). Always re-close from/to v0.
+	  {
 	    delta.clear();
 	    GrOps::close_after_assign(meet_g, meet_pi, 0, delta);
 	    GrOps::apply_delta(meet_g, delta);
